@@ -65,6 +65,9 @@ def gen_op(rng, misc_ok=True, heavy=True):
         return "info %d %d %s %s" % (rng.choice([0, 1, TPU, TNUMA]), rng.randint(0, 2), rnd_name(rng), rnd_name(rng))
     if r < 0.94:
         return "tinfo %s %s" % (rnd_name(rng), rnd_name(rng))
+    if r < 0.945:
+        # disallowed PUs / NUMA nodes (effective on topologies loaded with INCLUDE_DISALLOWED, EINVAL otherwise)
+        return rng.choice(["allowobj %d %d %d" % (TPU, rng.randint(0, 1), rng.randint(1, 5)), "allownode %d %d" % (0, rng.randint(0, 1)), "allownode 1 1", "allow 1", "obs"])
     if r < 0.955:
         return "refresh"
     if r < 0.985:
@@ -259,6 +262,14 @@ def boundary_cases():
             ("b:dist-hetero", [two_numa], ["pre distadd 1004 2 5 0 1", "pre distadd 1014 2 10 0 2", "pre distadd 1003 4 6 0 3", "dup", "mut B robj 1001 0 0"] + d),
             ("b:memattr-values", [two_numa], ["pre mreg foo 1", "pre mset 8 0 - 10", "pre mset 8 1 - 20", "pre mseto 2 0 1001 0 300", "pre mseto 2 1 1001 1 400", "dup",
                                               "mut A mset 8 0 - 11", "mut B mseto 2 0 1001 1 17"] + d),
+            # INCLUDE_DISALLOWED + allow(CUSTOM): initiators straddling allowed/disallowed PUs, targets on disallowed nodes, distances and kinds
+            # over disallowed PUs; a query before the last mutation so that the original's caches are valid while the copy refreshes lazily
+            ("b:disallowed-initiators", ["flags 1", two_numa], ["pre allowobj 1004 0 5", "pre mseto 2 0 1001 0 500", "pre obs", "pre mseto 2 0 1001 1 1000", "pre mseto 2 0 1003 3 2000",
+                                                              "dup", "mut A mseto 2 0 1003 2 7"] + d),
+            ("b:disallowed-node-target", ["flags 1", two_numa], ["pre allownode 0 0", "pre allowobj 1004 0 3", "pre mreg foo 1", "pre mset 8 1 - 20", "pre mseti 5 1 1001 1 30", "pre obs",
+                                                               "pre mseto 5 1 1003 3 40", "pre mset 8 0 - 10", "dup", "mut B mset 8 1 - 21"] + d),
+            ("b:disallowed-distances-kinds", ["flags 1", two_numa], ["pre allowobj 1004 2 5", "pre distadd 1004 8 5 0 1", "pre disthet 1004:7,1014:1,1003:0 6 2", "pre kobj 1003 3 2 k a", "pre kobj 1003 0 1 k b",
+                                                                   "pre obs", "pre allowobj 1004 0 1", "dup", "mut A allow 1", "mut B allowobj 1004 4 7"] + d),
             ("b:memattr-object-initiators", [two_numa], ["pre mseti 2 0 1001 0 300", "pre mseti 2 0 1001 1 100", "pre mseti 2 1 1003 2 50", "pre mseto 2 1 1001 1 400",
                                                          "pre mreg hwvlat 6", "pre mseti 8 0 1004 1 7", "pre mseto 8 0 1004 2 9", "dup", "mut A mseti 2 1 1001 0 5"] + d),
             ("b:memattr-object-initiators-stale", [two_numa], ["pre mseti 5 0 1001 0 30", "pre mseti 5 1 1001 1 10", "pre robj 1003 0 0", "dup"] + d),
